@@ -108,6 +108,8 @@ func (w *ifaceWorld) Do(st Step) string {
 				h.Apply(func(ctx *mocker.IContext, a int) int { return base + 7 })
 			case "stub":
 				h.As(func(ctx *mocker.IContext, a int) int { return 0 }).Return(base + 7)
+			case "seq": // the first call receives base+7, every later one base+9
+				h.As(func(ctx *mocker.IContext, a int) int { return 0 }).Returns(base+7, base+9)
 			default: // "when": answers only the argument 7
 				h.As(func(ctx *mocker.IContext, a int) int { return 0 }).When(7).Return(base + 7)
 			}
@@ -187,6 +189,8 @@ func (w *ifaceWorld) Observe(st Step) map[string]string {
 			out["res"] = "panic:nocond"
 		case pm != "":
 			out["res"] = pm
+		case r >= 10000 && (r-10000)%100 == 9:
+			out["res"] = fmt.Sprintf("seq2:%d", (r-10000)/100)
 		case r >= 10000 && (r-10000)%100 == 7:
 			out["res"] = fmt.Sprintf("repl:%d", (r-10000)/100)
 		case r >= 500 && r < 1000 && false:
